@@ -127,6 +127,92 @@ func distinctNames(r *lib.Rng, n int) []string {
 	return out
 }
 
+var qualifiers = []string{"a", "b", "t1", "tab le", "\u00e9", "q\"", "", "A", "\xffq", "x,y"}
+
+// refPrintedNames is the specification of SetSchema's WithoutQualifiers (the same definition as
+// Model/Formats.v without_qualifiers): the text after the first '.' when that short name occurs once.
+func refPrintedNames(names []string) []string {
+	short := func(n string) string {
+		if i := strings.IndexByte(n, '.'); i >= 0 {
+			return n[i+1:]
+		}
+		return n
+	}
+	count := map[string]int{}
+	for _, n := range names {
+		count[short(n)]++
+	}
+	out := make([]string, len(names))
+	for i, n := range names {
+		out[i] = n
+		if count[short(n)] == 1 {
+			out[i] = short(n)
+		}
+	}
+	return out
+}
+
+func hasDup(names []string) bool {
+	seen := map[string]bool{}
+	for _, n := range names {
+		if seen[n] {
+			return true
+		}
+		seen[n] = true
+	}
+	return false
+}
+
+// schemaNames draws the (pairwise distinct) column names of a case. The family is fixed by the case index, so every
+// seed covers: plain names; all columns qualified with distinct short names; the same short name under two or three
+// qualifiers (join output); a bare name next to a qualified one with the same short name; empty qualifier / short name;
+// and one schema whose column name itself holds a '.' (finding class qualifier-strip-collision).
+func schemaNames(r *lib.Rng, i int, nf int) (names []string, family string) {
+	q := func() string { return qualifiers[r.Intn(len(qualifiers))] }
+	twoQ := func() (string, string) {
+		a := q()
+		b := q()
+		for b == a {
+			b = q()
+		}
+		return a, b
+	}
+	shorts := distinctNames(r, 4)
+	switch i % 6 {
+	case 2:
+		family = "names_short_shared_by_two_qualifiers"
+		a, b := twoQ()
+		names = []string{a + "." + shorts[0], a + "." + shorts[1], b + "." + shorts[1]}
+		if r.Bool() {
+			names = append(names, b+"."+shorts[2])
+		}
+	case 3:
+		family = "names_all_qualified_distinct_shorts"
+		for k := 0; k < nf; k++ {
+			names = append(names, q()+"."+shorts[k])
+		}
+	case 4:
+		family = "names_bare_next_to_qualified"
+		a, b := twoQ()
+		names = []string{shorts[0], a + "." + shorts[0], b + "." + shorts[1]}
+		if r.Bool() {
+			names = append(names, "."+shorts[2], a+".") // empty qualifier, empty short name
+		}
+	case 5:
+		if i == 5 {
+			family = "names_dotted_column_collision"
+			names = []string{"q.x.y", "x.y", "z.y"}
+		} else {
+			family = "names_short_shared_by_three_qualifiers"
+			names = []string{"a." + shorts[0], "b." + shorts[0], "t1." + shorts[0], "b." + shorts[1]}
+		}
+	default:
+		family = "names_plain"
+		names = distinctNames(r, nf)
+	}
+	return names, family
+}
+
 // genType draws a type; unions hold at most one alternative per type id (what TypeSum produces for scalars).
 func genType(r *lib.Rng, depth int) octosql.Type { return genTypeU(r, depth, true) }
 
@@ -548,7 +634,7 @@ func allValidUTF8(fields []physical.SchemaField, rows [][]octosql.Value) bool {
 }
 
 // checkJSON: every line is valid for encoding/json and decodes to the row (floats by bit pattern).
-func checkJSON(fields []physical.SchemaField, rows [][]octosql.Value, status int, out []byte) string {
+func checkJSON(fields []physical.SchemaField, printed []string, rows [][]octosql.Value, status int, out []byte) string {
 	expect := rows
 	if status != 0 {
 		expect = nil
@@ -585,16 +671,17 @@ func checkJSON(fields []physical.SchemaField, rows [][]octosql.Value, status int
 			return fmt.Sprintf("line %d does not decode: %v", i, err)
 		}
 		o, ok := d.(map[string]interface{})
+		// exactly one member per column: a decoder that keeps one value per key must still see every column
 		if !ok || len(o) != len(fields) {
-			return fmt.Sprintf("line %d: object with %d members expected, got %#v", i, len(fields), d)
+			return fmt.Sprintf("line %d: the row has %d columns but the line decodes to %d members: %s", i, len(fields), len(o), line)
 		}
 		for k, f := range fields {
-			x, ok := o[lossyUTF8(f.Name)]
+			x, ok := o[lossyUTF8(printed[k])]
 			if !ok {
-				return fmt.Sprintf("line %d: member %q missing", i, f.Name)
+				return fmt.Sprintf("line %d: member %q (column %q) missing", i, printed[k], f.Name)
 			}
 			if m := matchJSON(f.Type, expect[i][k], x); m != "" {
-				return fmt.Sprintf("line %d member %q: %s", i, f.Name, m)
+				return fmt.Sprintf("line %d member %q: %s", i, printed[k], m)
 			}
 		}
 	}
@@ -606,7 +693,7 @@ func checkJSON(fields []physical.SchemaField, rows [][]octosql.Value, status int
 
 // checkCSV: encoding/csv reads the output back to the header and the cells. Its reader skips empty lines and
 // turns \r\n inside quoted fields into \n; the expectation is adjusted for both (the Coq-side RFC 4180 oracle is exact).
-func checkCSV(fields []physical.SchemaField, rows [][]octosql.Value, status int, out []byte) string {
+func checkCSV(fields []physical.SchemaField, printed []string, rows [][]octosql.Value, status int, out []byte) string {
 	if status != 0 {
 		return "" // judged by the Coq-side oracle
 	}
@@ -623,8 +710,11 @@ func checkCSV(fields []physical.SchemaField, rows [][]octosql.Value, status int,
 	}
 	var want []exp
 	hdr := make([]string, len(fields))
-	for i, f := range fields {
-		hdr[i] = norm(f.Name)
+	for i := range fields {
+		hdr[i] = norm(printed[i])
+	}
+	if hasDup(hdr) {
+		return fmt.Sprintf("the CSV header names two columns alike: %q", hdr)
 	}
 	if !(len(hdr) == 1 && hdr[0] == "") {
 		want = append(want, exp{cells: hdr})
@@ -738,7 +828,7 @@ func main() {
 	cf.Checks = []lib.Check{
 		{Name: "tie_json", Kind: "tie", Fn: "c25_tie_json"}, {Name: "tie_csv", Kind: "tie", Fn: "c25_tie_csv"},
 		{Name: "spec_json", Kind: "spec", Fn: "c25_spec_json"}, {Name: "spec_csv", Kind: "spec", Fn: "c25_spec_csv"}}
-	cf.Side.Rule = "schemas of 1..4 fields (scalar, nullable/union, list, object, tuple types nested to depth 2; field and member names with quotes, " +
+	cf.Side.Rule = "schemas of 1..5 fields (column names plain, qualified, sharing a short name under 2-3 qualifiers, bare next to qualified, empty qualifier/short name - family fixed by the case index; scalar, nullable/union, list, object, tuple types nested to depth 2; field and member names with quotes, " +
 		"control bytes, multibyte and invalid UTF-8) and 1..4 conforming rows (strings with control bytes, quotes, backslashes, CR/LF, leading spaces, " +
 		"multibyte, invalid UTF-8, 1.5-4 kB; extreme ints; floats incl. subnormals, extremes, -0, NaN and infinities; NULLs) through " +
 		"formats.NewJSONFormatter and formats.NewCSVFormatter driven as outputs/eager does; non-trivial = some value is a string needing " +
@@ -747,7 +837,14 @@ func main() {
 	for i := 0; i < n; i++ {
 		r := rng.Fork()
 		nf := 1 + r.Intn(4)
-		names := distinctNames(r, nf)
+		names, family := schemaNames(r, i, nf)
+		nf = len(names)
+		cf.Count(family)
+		printed := refPrintedNames(names)
+		class := ""
+		if !hasDup(names) && hasDup(printed) {
+			class = "qualifier-strip-collision" // only reachable with a '.' inside a column name (findings/C25.txt)
+		}
 		fields := make([]physical.SchemaField, nf)
 		for k := range fields {
 			fields[k] = physical.SchemaField{Name: names[k], Type: genType(r, 2)}
@@ -788,15 +885,18 @@ func main() {
 		idx := cf.Add(fmt.Sprintf("(%s, %s, %s, %s)", lib.CoqList(fparts), lib.CoqList(rparts), coqObs(js, jout), coqObs(cs, cout)), readable, nontrivial)
 		cf.Count(fmt.Sprintf("json_status_%d", js))
 		cf.Count(fmt.Sprintf("csv_status_%d", cs))
+		if class != "" {
+			cf.SetClass(idx, class)
+		}
 		if js == 2 {
 			cf.Violation(idx, "the JSON formatter panicked: "+jmsg, "")
-		} else if m := checkJSON(fields, rows, js, jout); m != "" {
-			cf.Violation(idx, "JSON output: "+m, "")
+		} else if m := checkJSON(fields, printed, rows, js, jout); m != "" {
+			cf.Violation(idx, "JSON output: "+m, class)
 		}
 		if cs == 2 {
 			cf.Violation(idx, "the CSV formatter panicked: "+cmsg, "")
-		} else if m := checkCSV(fields, rows, cs, cout); m != "" {
-			cf.Violation(idx, "CSV output: "+m, "")
+		} else if m := checkCSV(fields, printed, rows, cs, cout); m != "" {
+			cf.Violation(idx, "CSV output: "+m, class)
 		}
 	}
 	if err := cf.Write(f.Out); err != nil {
